@@ -255,3 +255,16 @@ Proof.
   - rewrite andb_true_iff, mem_In, negb_true_iff. rewrite <- named_b_spec.
     destruct (named_b new k); split; intros [H1 H2]; split; auto; congruence.
 Qed.
+
+(** for every data item, only supplied spellings are kept *)
+Lemma calc_incl cur new s f : In f (calculate_new_flags cur new s) -> In f cur \/ In f new.
+Proof.
+  unfold calculate_new_flags.
+  destruct (str_eqb s IT_FLAGS).
+  { intros Hf. apply add_all_incl in Hf. destruct Hf as [[]|Hf]; auto. }
+  destruct (str_eqb s IT_ADD).
+  { intros Hf. apply add_all_incl in Hf. destruct Hf as [Hf|Hf]; auto. left. now apply to_set_ci_incl. }
+  destruct (str_eqb s IT_DEL).
+  { intros Hf. left. apply del_all_incl in Hf. now apply to_set_ci_incl. }
+  intros Hf. left. now apply to_set_ci_incl.
+Qed.
